@@ -1,1 +1,360 @@
-//! (stub)
+//! Independent BAM framing and record field decoding, written from the SAM specification
+//! (SAMv1 §4.2 "The BAM format", §4.2.4 "Auxiliary data encoding", §5.3 "C source code for
+//! computing bin number"). Nothing here calls into noodles-bam.
+//!
+//! Input is the *uncompressed* BAM stream (for a BGZF file: `bgzf_walk::concat(&bgzf_walk::walk(..))`).
+//!
+//! Layout transcribed from the specification:
+//!
+//! ```text
+//! magic "BAM\1" | l_text i32 | text[l_text] | n_ref i32 | { l_name i32 | name[l_name] (NUL-terminated) | l_ref i32 }*
+//! record: block_size i32 | refID i32 | pos i32 | l_read_name u8 | mapq u8 | bin u16 | n_cigar_op u16 |
+//!         flag u16 | l_seq i32 | next_refID i32 | next_pos i32 | tlen i32 | read_name[l_read_name] |
+//!         cigar u32[n_cigar_op] (len<<4|op, op in "MIDNSHP=X") | seq u8[(l_seq+1)/2] (high nibble first,
+//!         "=ACMGRSVTWYHKDBN") | qual u8[l_seq] | aux*
+//! aux:    tag[2] | type | value; A c C: 1 byte; s S: 2; i I f: 4; Z H: NUL-terminated;
+//!         B: subtype[1] count u32 values
+//! ```
+
+pub const MAGIC: [u8; 4] = *b"BAM\x01";
+pub const BASES: &[u8; 16] = b"=ACMGRSVTWYHKDBN";
+pub const CIGAR_OPS: &[u8; 9] = b"MIDNSHP=X";
+
+/// SAMv1 §5.3, transcribed: `beg` 0-based inclusive, `end` 0-based exclusive.
+pub fn reg2bin(beg: i64, end: i64) -> i64 {
+    let end = end - 1;
+    if beg >> 14 == end >> 14 {
+        return ((1 << 15) - 1) / 7 + (beg >> 14);
+    }
+    if beg >> 17 == end >> 17 {
+        return ((1 << 12) - 1) / 7 + (beg >> 17);
+    }
+    if beg >> 20 == end >> 20 {
+        return ((1 << 9) - 1) / 7 + (beg >> 20);
+    }
+    if beg >> 23 == end >> 23 {
+        return ((1 << 6) - 1) / 7 + (beg >> 23);
+    }
+    if beg >> 26 == end >> 26 {
+        return ((1 << 3) - 1) / 7 + (beg >> 26);
+    }
+    0
+}
+
+/// Bin of a record by §4.2.1: 0-based start `pos0` (−1 when unplaced) and reference length
+/// `ref_len` (Σ M/D/N/=/X); a zero length counts as one. `reg2bin(-1, 0)` = 4680.
+pub fn record_bin(pos0: i64, ref_len: u64) -> i64 {
+    reg2bin(pos0, pos0 + ref_len.max(1) as i64)
+}
+
+#[derive(Clone, Debug, PartialEq, Eq)]
+pub struct RawHeader {
+    pub text: Vec<u8>,
+    /// (name without the NUL, l_ref)
+    pub refs: Vec<(Vec<u8>, i32)>,
+    /// offset of the first record's `block_size`
+    pub records_offset: usize,
+    /// (what, offset, width) of every length/count field — for structured mutation
+    pub length_fields: Vec<(&'static str, usize, usize)>,
+}
+
+fn rd_i32(s: &[u8], off: usize, what: &str) -> Result<i32, String> {
+    s.get(off..off + 4).map(|b| i32::from_le_bytes([b[0], b[1], b[2], b[3]])).ok_or_else(|| format!("{what}: stream ends at {} (need 4 bytes at {off})", s.len()))
+}
+
+fn rd_u32(s: &[u8], off: usize, what: &str) -> Result<u32, String> {
+    rd_i32(s, off, what).map(|x| x as u32)
+}
+
+fn rd_u16(s: &[u8], off: usize, what: &str) -> Result<u16, String> {
+    s.get(off..off + 2).map(|b| u16::from_le_bytes([b[0], b[1]])).ok_or_else(|| format!("{what}: stream ends at {} (need 2 bytes at {off})", s.len()))
+}
+
+pub fn parse_header(s: &[u8]) -> Result<RawHeader, String> {
+    if s.len() < 4 || s[..4] != MAGIC {
+        return Err("bad BAM magic".into());
+    }
+    let mut lf = vec![("l_text", 4usize, 4usize)];
+    let l_text = rd_i32(s, 4, "l_text")?;
+    if l_text < 0 {
+        return Err(format!("l_text = {l_text}"));
+    }
+    let mut off = 8usize;
+    let text = s.get(off..off + l_text as usize).ok_or("header text truncated")?.to_vec();
+    off += l_text as usize;
+    lf.push(("n_ref", off, 4));
+    let n_ref = rd_i32(s, off, "n_ref")?;
+    if n_ref < 0 {
+        return Err(format!("n_ref = {n_ref}"));
+    }
+    off += 4;
+    let mut refs = Vec::new();
+    for i in 0..n_ref {
+        lf.push(("l_name", off, 4));
+        let l_name = rd_i32(s, off, "l_name")?;
+        if l_name < 1 {
+            return Err(format!("reference {i}: l_name = {l_name}"));
+        }
+        off += 4;
+        let name = s.get(off..off + l_name as usize).ok_or_else(|| format!("reference {i}: name truncated"))?;
+        if *name.last().unwrap_or(&1) != 0 {
+            return Err(format!("reference {i}: name not NUL-terminated"));
+        }
+        if name[..name.len() - 1].contains(&0) {
+            return Err(format!("reference {i}: NUL inside the name"));
+        }
+        let name = name[..name.len() - 1].to_vec();
+        off += l_name as usize;
+        let l_ref = rd_i32(s, off, "l_ref")?;
+        off += 4;
+        refs.push((name, l_ref));
+    }
+    Ok(RawHeader { text, refs, records_offset: off, length_fields: lf })
+}
+
+#[derive(Clone, Debug, PartialEq)]
+pub enum RawAuxValue {
+    /// `A`, `c`, `C`, `s`, `S`, `i`, `I`: the integer value (for `A` the byte)
+    Int(i64),
+    /// `f`: bit pattern
+    Float(u32),
+    /// `Z` / `H`: bytes without the NUL
+    Text(Vec<u8>),
+    /// `B` with an integer subtype
+    IntArray(Vec<i64>),
+    /// `B:f`: bit patterns
+    FloatArray(Vec<u32>),
+}
+
+#[derive(Clone, Debug, PartialEq)]
+pub struct RawAux {
+    pub tag: [u8; 2],
+    pub ty: u8,
+    pub subtype: Option<u8>,
+    /// `B`: the stored element count
+    pub count: Option<u32>,
+    pub value: RawAuxValue,
+    /// offset of the tag within the stream
+    pub offset: usize,
+}
+
+#[derive(Clone, Debug, PartialEq)]
+pub struct RawRecord {
+    /// offset of `block_size` in the stream
+    pub offset: usize,
+    pub block_size: u32,
+    pub ref_id: i32,
+    pub pos: i32,
+    pub l_read_name: u8,
+    pub mapq: u8,
+    pub bin: u16,
+    pub n_cigar_op: u16,
+    pub flag: u16,
+    pub l_seq: u32,
+    pub next_ref_id: i32,
+    pub next_pos: i32,
+    pub tlen: i32,
+    /// `l_read_name` bytes including the terminator
+    pub read_name: Vec<u8>,
+    /// raw `len<<4|op` words
+    pub cigar: Vec<u32>,
+    /// packed bases, `(l_seq+1)/2` bytes
+    pub seq_packed: Vec<u8>,
+    pub qual: Vec<u8>,
+    pub aux: Vec<RawAux>,
+    /// (what, offset, width) of every length/count field of this record
+    pub length_fields: Vec<(&'static str, usize, usize)>,
+}
+
+impl RawRecord {
+    /// `(op code 0..=8, length)`; `Err` for an op code > 8.
+    pub fn cigar_ops(&self) -> Result<Vec<(u8, u64)>, String> {
+        self.cigar
+            .iter()
+            .map(|w| {
+                let k = (w & 0xf) as u8;
+                if k > 8 { Err(format!("CIGAR op code {k}")) } else { Ok((k, (w >> 4) as u64)) }
+            })
+            .collect()
+    }
+
+    /// Unpacked bases (high nibble first).
+    pub fn bases(&self) -> Vec<u8> {
+        (0..self.l_seq as usize)
+            .map(|i| {
+                let b = self.seq_packed[i / 2];
+                BASES[(if i % 2 == 0 { b >> 4 } else { b & 0xf }) as usize]
+            })
+            .collect()
+    }
+
+    /// Low nibble of the last sequence byte when `l_seq` is odd (the specification recommends 0).
+    pub fn odd_padding_nibble(&self) -> Option<u8> {
+        if self.l_seq % 2 == 1 { self.seq_packed.last().map(|b| b & 0xf) } else { None }
+    }
+
+    /// Name without the terminator; `None` for the `*` placeholder.
+    pub fn name(&self) -> Result<Option<Vec<u8>>, String> {
+        match self.read_name.split_last() {
+            Some((0, body)) => {
+                if body.contains(&0) {
+                    Err("NUL inside read_name".into())
+                } else if body == b"*" {
+                    Ok(None)
+                } else {
+                    Ok(Some(body.to_vec()))
+                }
+            }
+            _ => Err("read_name not NUL-terminated".into()),
+        }
+    }
+
+    pub fn aux_by_tag(&self, tag: &[u8; 2]) -> Vec<&RawAux> {
+        self.aux.iter().filter(|a| &a.tag == tag).collect()
+    }
+}
+
+pub fn parse_aux(s: &[u8], mut off: usize, end: usize, lf: &mut Vec<(&'static str, usize, usize)>) -> Result<Vec<RawAux>, String> {
+    let mut out = Vec::new();
+    while off < end {
+        let start = off;
+        if off + 3 > end {
+            return Err(format!("aux field at {off}: truncated tag/type"));
+        }
+        let tag = [s[off], s[off + 1]];
+        let ty = s[off + 2];
+        off += 3;
+        let need = |off: usize, n: usize| -> Result<(), String> { if off + n > end { Err(format!("aux {}{} at {start}: value truncated", tag[0] as char, tag[1] as char)) } else { Ok(()) } };
+        let int_at = |off: usize, t: u8| -> i64 {
+            match t {
+                b'A' | b'C' => s[off] as i64,
+                b'c' => s[off] as i8 as i64,
+                b's' => i16::from_le_bytes([s[off], s[off + 1]]) as i64,
+                b'S' => u16::from_le_bytes([s[off], s[off + 1]]) as i64,
+                b'i' => i32::from_le_bytes([s[off], s[off + 1], s[off + 2], s[off + 3]]) as i64,
+                _ => u32::from_le_bytes([s[off], s[off + 1], s[off + 2], s[off + 3]]) as i64,
+            }
+        };
+        let width = |t: u8| -> Option<usize> {
+            match t {
+                b'A' | b'c' | b'C' => Some(1),
+                b's' | b'S' => Some(2),
+                b'i' | b'I' | b'f' => Some(4),
+                _ => None,
+            }
+        };
+        let (mut subtype, mut count) = (None, None);
+        let value = match ty {
+            b'A' | b'c' | b'C' | b's' | b'S' | b'i' | b'I' => {
+                let w = width(ty).unwrap_or(1);
+                need(off, w)?;
+                let v = int_at(off, ty);
+                off += w;
+                RawAuxValue::Int(v)
+            }
+            b'f' => {
+                need(off, 4)?;
+                let v = u32::from_le_bytes([s[off], s[off + 1], s[off + 2], s[off + 3]]);
+                off += 4;
+                RawAuxValue::Float(v)
+            }
+            b'Z' | b'H' => {
+                let rel = s[off..end].iter().position(|b| *b == 0).ok_or_else(|| format!("aux at {start}: unterminated string"))?;
+                let v = s[off..off + rel].to_vec();
+                off += rel + 1;
+                RawAuxValue::Text(v)
+            }
+            b'B' => {
+                need(off, 5)?;
+                let st = s[off];
+                let w = match st {
+                    b'c' | b'C' | b's' | b'S' | b'i' | b'I' | b'f' => width(st).unwrap_or(1),
+                    _ => return Err(format!("aux at {start}: array subtype {:?}", st as char)),
+                };
+                lf.push(("aux_array_count", off + 1, 4));
+                let n = u32::from_le_bytes([s[off + 1], s[off + 2], s[off + 3], s[off + 4]]);
+                off += 5;
+                need(off, w * n as usize)?;
+                subtype = Some(st);
+                count = Some(n);
+                let v = if st == b'f' {
+                    RawAuxValue::FloatArray((0..n as usize).map(|i| u32::from_le_bytes([s[off + 4 * i], s[off + 4 * i + 1], s[off + 4 * i + 2], s[off + 4 * i + 3]])).collect())
+                } else {
+                    RawAuxValue::IntArray((0..n as usize).map(|i| int_at(off + w * i, st)).collect())
+                };
+                off += w * n as usize;
+                v
+            }
+            _ => return Err(format!("aux at {start}: type {:?}", ty as char)),
+        };
+        out.push(RawAux { tag, ty, subtype, count, value, offset: start });
+    }
+    Ok(out)
+}
+
+/// Parse the record whose `block_size` is at `off`. Returns the record and the offset of the next.
+pub fn parse_record(s: &[u8], off: usize) -> Result<(RawRecord, usize), String> {
+    let block_size = rd_u32(s, off, "block_size")?;
+    let body = off + 4;
+    let end = body.checked_add(block_size as usize).filter(|e| *e <= s.len()).ok_or_else(|| format!("record at {off}: block_size {block_size} overruns the stream ({} bytes)", s.len()))?;
+    if block_size < 32 {
+        return Err(format!("record at {off}: block_size {block_size} < 32"));
+    }
+    let mut lf = vec![("block_size", off, 4usize), ("l_read_name", body + 8, 1), ("n_cigar_op", body + 12, 2), ("l_seq", body + 16, 4)];
+    let ref_id = rd_i32(s, body, "refID")?;
+    let pos = rd_i32(s, body + 4, "pos")?;
+    let l_read_name = s[body + 8];
+    let mapq = s[body + 9];
+    let bin = rd_u16(s, body + 10, "bin")?;
+    let n_cigar_op = rd_u16(s, body + 12, "n_cigar_op")?;
+    let flag = rd_u16(s, body + 14, "flag")?;
+    let l_seq = rd_u32(s, body + 16, "l_seq")?;
+    let next_ref_id = rd_i32(s, body + 20, "next_refID")?;
+    let next_pos = rd_i32(s, body + 24, "next_pos")?;
+    let tlen = rd_i32(s, body + 28, "tlen")?;
+    let mut p = body + 32;
+    let take = |p: &mut usize, n: usize, what: &str| -> Result<Vec<u8>, String> {
+        if *p + n > end {
+            return Err(format!("record at {off}: {what} ({n} bytes at {}) overruns block end {end}", *p));
+        }
+        let v = s[*p..*p + n].to_vec();
+        *p += n;
+        Ok(v)
+    };
+    let read_name = take(&mut p, l_read_name as usize, "read_name")?;
+    let cigar_bytes = take(&mut p, 4 * n_cigar_op as usize, "cigar")?;
+    let cigar = cigar_bytes.chunks(4).map(|c| u32::from_le_bytes([c[0], c[1], c[2], c[3]])).collect();
+    let seq_packed = take(&mut p, (l_seq as usize).div_ceil(2), "seq")?;
+    let qual = take(&mut p, l_seq as usize, "qual")?;
+    let aux = parse_aux(s, p, end, &mut lf).map_err(|e| format!("record at {off}: {e}"))?;
+    Ok((RawRecord { offset: off, block_size, ref_id, pos, l_read_name, mapq, bin, n_cigar_op, flag, l_seq, next_ref_id, next_pos, tlen, read_name, cigar, seq_packed, qual, aux, length_fields: lf }, end))
+}
+
+/// Header plus all records of an uncompressed BAM stream; the records must tile the rest exactly.
+pub fn parse_stream(s: &[u8]) -> Result<(RawHeader, Vec<RawRecord>), String> {
+    let h = parse_header(s)?;
+    let mut off = h.records_offset;
+    let mut recs = Vec::new();
+    while off < s.len() {
+        let (r, next) = parse_record(s, off)?;
+        recs.push(r);
+        off = next;
+    }
+    Ok((h, recs))
+}
+
+#[cfg(test)]
+mod tests {
+    use super::*;
+
+    #[test]
+    fn bins() {
+        assert_eq!(reg2bin(-1, 0), 4680);
+        assert_eq!(reg2bin(0, 1), 4681);
+        assert_eq!(reg2bin(0, 16384), 4681);
+        assert_eq!(reg2bin(0, 16385), 585);
+        assert_eq!(reg2bin(16384, 16385), 4682);
+        assert_eq!(reg2bin(0, 1 << 29), 0);
+        assert_eq!(reg2bin((1 << 29) - 1, 1 << 29), 4681 + 32767);
+    }
+}
